@@ -542,6 +542,33 @@ def _small_scope(tier):
                     pre2 = [{"name": "swizzle", "order": list(reversed(ids))}]
                     yield _xf(d, t, ids, sh, 0, None, True,
                               {"name": "split", "kind": "uniform", "step": 2, "k": 0, "depthkw": True}, pre2)
+    # swizzles of split tensors in EVERY rank order (the lower half of a split above the upper one
+    # makes a rebuilt fiber span several operand ranges), and of splits of splits
+    span = {1: [[[0, 1], [1, 2], [5, 3], [7, 4]], [[2, 5]], []],
+            2: [[[0, [[1, 5], [6, 6]]], [2, [[0, 7]]], [5, [[3, 1], [4, 2]]]], [[1, [[0, 1], [3, 2]]], [6, [[3, 4]]]]]}
+    for d in (1, 2):
+        ids = IDS[:d]
+        for t in span[d] + TREES[d][1:]:
+            for declared in (False, True):
+                sh = _cover(t, d) if declared else None
+                for k in range(d):
+                    splits = [{"name": "split", "kind": "uniform", "step": 4, "k": k, "depthkw": True},
+                              {"name": "split", "kind": "uniform", "step": 2, "k": k, "byrank": True},
+                              {"name": "split", "kind": "equal", "step": 2, "k": k, "depthkw": True},
+                              {"name": "split", "kind": "nonuniform", "splits": [0, 3], "k": k, "depthkw": True}]
+                    for sp in splits:
+                        new_ids = ids[:k] + [ids[k] + ".1", ids[k] + ".0"] + ids[k + 1:]
+                        for order in itertools.permutations(new_ids):
+                            i += 1
+                            yield _xf(d, t, ids, sh, 0, None, bool(i & 1), {"name": "swizzle", "order": list(order)}, [sp])
+        if d == 1:
+            t = span[1][0]
+            pre = [{"name": "split", "kind": "uniform", "step": 4, "k": 0, "depthkw": True},
+                   {"name": "split", "kind": "uniform", "step": 2, "k": 1, "depthkw": True}]
+            for order in itertools.permutations(["M.1", "M.0.1", "M.0.0"]):
+                for declared in (False, True):
+                    yield _xf(1, t, ids, _cover(t, 1) if declared else None, 0, None, False,
+                              {"name": "swizzle", "order": list(order)}, pre)
     # lazy results
     fa = [{"c": [1, 3], "shape": 6, "act": [1, 5], "id": "A"}, {"c": [0, 2, 4], "shape": None, "act": None, "id": None},
           {"c": [2, 3], "shape": 5, "act": None, "id": "A"}, {"c": [], "shape": None, "act": None, "id": "A"},
@@ -599,6 +626,13 @@ def _random(seed, tier):
             continue
         fmts = [rng.choice("CCU") for _ in range(d)]
         mut = rng.random() < 0.5
+        if r < 0.18 and d <= 3:
+            k = rng.randrange(d)
+            sp = {"name": "split", "kind": rng.choice(["uniform", "equal"]), "step": rng.randint(1, nn), "k": k,
+                  "depthkw": True}
+            new_ids = ids[:k] + [ids[k] + ".1", ids[k] + ".0"] + ids[k + 1:]
+            yield _xf(d, t, ids, shape, dflt, None, mut, {"name": "swizzle", "order": rng.sample(new_ids, d + 1)}, [sp])
+            continue
         if r < 0.25 and d >= 2:
             pre, op, nr = rng.choice(_unflatten_cases(d, ids))
             yield _xf(d, t, ids, shape, dflt, [rng.choice("CCU") for _ in range(nr)], mut, op, pre)
